@@ -29,30 +29,41 @@ def source_hash():
                      os.path.join(ROOT, "harness")])
 
 
-def ensure_build(cfg, targets=None):
-    """Returns the build directory of configuration `cfg`, (re)building if the sources changed."""
+def ensure_build(cfg, target=None):
+    """Returns the build directory of configuration `cfg`; (re)builds the library and the driver
+    `target` (all drivers if None) when the sources changed.  One stamp per configuration for the
+    configure step and the library, one per driver."""
     os.makedirs(BUILD, exist_ok=True)
     bdir = os.path.join(BUILD, cfg)
-    stamp = os.path.join(BUILD, cfg + ".stamp")
     want = source_hash() + " " + " ".join(CONFIGS[cfg])
     with open(os.path.join(BUILD, cfg + ".lock"), "w") as lk:
         fcntl.flock(lk, fcntl.LOCK_EX)
-        have = open(stamp).read() if os.path.exists(stamp) else ""
-        if have == want and os.path.isdir(bdir):
-            return bdir
         t0 = time.time()
-        if os.path.exists(stamp):
-            os.remove(stamp)
-        shutil.rmtree(bdir, ignore_errors=True)
-        rc, out = run(["cmake", "-G", "Ninja", "-S", os.path.join(ROOT, "harness"), "-B", bdir,
-                       "-DVERIF_REPO=" + REPO, "-DFETCHCONTENT_TRY_FIND_PACKAGE_MODE=ALWAYS"] + CONFIGS[cfg],
-                      timeout=600)
-        if rc != 0:
-            raise InfraError("cmake configure failed for %s:\n%s" % (cfg, out[-3000:]))
-        rc, out = run(["cmake", "--build", bdir, "-j", str(NCPU)], timeout=1800)
-        if rc != 0:
-            raise InfraError("build failed for %s (does /repo still compile?):\n%s" % (cfg, out[-6000:]))
-        with open(stamp, "w") as f:
-            f.write(want)
-        log("[build] %s rebuilt in %.1fs" % (cfg, time.time() - t0))
+        cstamp = os.path.join(BUILD, cfg + ".stamp")
+        have = open(cstamp).read() if os.path.exists(cstamp) else ""
+        if have != want or not os.path.isdir(bdir):
+            for f in os.listdir(BUILD):
+                if f.startswith(cfg + ".") and f.endswith(".stamp"):
+                    os.remove(os.path.join(BUILD, f))
+            shutil.rmtree(bdir, ignore_errors=True)
+            rc, out = run(["cmake", "-G", "Ninja", "-S", os.path.join(ROOT, "harness"), "-B", bdir,
+                           "-DVERIF_REPO=" + REPO, "-DFETCHCONTENT_TRY_FIND_PACKAGE_MODE=ALWAYS"] + CONFIGS[cfg],
+                          timeout=600)
+            if rc != 0:
+                raise InfraError("cmake configure failed for %s:\n%s" % (cfg, out[-3000:]))
+            rc, out = run(["cmake", "--build", bdir, "-j", str(NCPU), "--target", "foonathan_memory"], timeout=1800)
+            if rc != 0:
+                raise InfraError("build of the library failed for %s (does /repo still compile?):\n%s" % (cfg, out[-6000:]))
+            with open(cstamp, "w") as f:
+                f.write(want)
+        tstamp = os.path.join(BUILD, "%s.%s.stamp" % (cfg, target or "all"))
+        allstamp = os.path.join(BUILD, "%s.all.stamp" % cfg)
+        if not os.path.exists(tstamp) and not os.path.exists(allstamp):
+            cmd = ["cmake", "--build", bdir, "-j", str(NCPU)] + (["--target", target] if target else [])
+            rc, out = run(cmd, timeout=1800)
+            if rc != 0:
+                raise InfraError("build failed for %s/%s (does /repo still compile?):\n%s" % (cfg, target or "all", out[-6000:]))
+            with open(tstamp, "w") as f:
+                f.write(want)
+            log("[build] %s/%s built in %.1fs" % (cfg, target or "all", time.time() - t0))
         return bdir
